@@ -192,9 +192,14 @@ func checkSym(c symCase) (string, caseStat) {
 	if m.Comp == "key" {
 		mkey = octKey(mutated)
 	}
+	first := dec
 	dec = kitDecrypt(c.API, comps["ct"], c.Alg, mkey, comps["nonce"], comps["tag"], comps["aad"])
 	if dec.pnc != nil {
 		return fmt.Sprintf("decryption of a mutated input panicked: %v", dec.pnc), st
+	}
+	// what the earlier calls returned is still the caller's: the ciphertext, the tag and the plaintext are what they were
+	if !bytes.Equal(first.pt, pt) || !bytes.Equal(enc.ct, refCt) || !bytes.Equal(enc.tag, refTag) {
+		return fmt.Sprintf("results of the earlier calls changed during a later decryption: plaintext %s (was %s), ciphertext %s tag %x (were %s %x)", hx(first.pt), hx(pt), hx(enc.ct), enc.tag, hx(refCt), refTag), st
 	}
 	if dec.err != nil && len(dec.pt) != 0 {
 		return "decryption returned output alongside an error: " + dec.String(), st
